@@ -79,9 +79,14 @@ def run(ck, facts):
         if f["path"].endswith("diplomat_is_str") or "::write::" in f["path"]:
             continue
         m = MirFn(C.inline_mir(rt, f))      # a pointer/length pair prepared by a private helper is judged where it is used
+        # ... and a private helper that only assembles the fat pointer from a pointer it is GIVEN is judged at its callers (they are analysed with it spliced in)
+        helper_called_in_crate = not (f.get("vis") or "").startswith("Public") and any(
+            C.norm_path(C.mir_callee(t2) or "") == C.norm_path(f["path"]) for g2 in rt.fn_list if g2 is not f and (g2.get("mir") or {}).get("blocks") for _, t2 in MirFn(g2).calls())
         for bb, t in m.calls():
             cal = C.mir_callee(t) or ""
             if not RAW_RE.search(cal):
+                continue
+            if helper_called_in_crate and C.sym_is_arg(sym_strip(m.sym_op(t["args"][0]))):
                 continue
             n_raw += 1
             a = [m.sym_op(x) for x in t["args"]]
@@ -158,7 +163,7 @@ def run(ck, facts):
 
     # Drop for DiplomatOwnedSlice: frees only on the non-null edge (instance of R1 above: slice_from_raw_parts_mut in drop) – assert it exists
     dr = rt.fn("<diplomat_runtime::slices::DiplomatOwnedSlice<T> as core::ops::drop::Drop>::drop")
-    md = MirFn(dr)
+    md = MirFn(C.inline_mir(rt, dr))
     has = any(RAW_RE.search(C.mir_callee(t) or "") for _, t in md.calls())
     ck.expect(has, "R1", "DiplomatOwnedSlice::drop/frees", "", "Drop for DiplomatOwnedSlice no longer rebuilds the box (leak) or uses an unrecognised path", C.loc(dr))
     # ... and releases it AS a Box<[T]> (whose drop knows that an empty boxed slice owns no allocation), never by calling the allocator / diplomat_free on the view's pointer
